@@ -154,6 +154,59 @@ theorem C01_addArg_wf (args : List Arg) (k v : String) (h : wf args = true) : wf
   simp only [List.replicate_succ, List.replicate_zero] at this
   rw [this]; exact h
 
+/-! ### C01: a generator argument keeps the call well formed when an argument is added -/
+
+theorem cls_parenGens (args : List Arg) : (parenGens args).map cls = args.map cls := by
+  unfold parenGens
+  split
+  · rfl
+  · rw [List.map_map]
+    apply List.map_congr_left
+    intro a _
+    simp only [Function.comp]
+    split <;> simp [cls]
+
+theorem length_parenGens (args : List Arg) : (parenGens args).length = args.length := by
+  unfold parenGens; split <;> simp
+
+/-- after the normalisation no generator is bare unless it is the only argument -/
+theorem parenGens_wfGen (args : List Arg) (h : wf args = true) : wfGen (parenGens args) = true := by
+  simp only [wfGen, Bool.and_eq_true, Bool.or_eq_true, decide_eq_true_eq]
+  refine ⟨by simp only [wf, cls_parenGens]; exact h, ?_⟩
+  by_cases hl : args.length < 2
+  · left; rw [length_parenGens]; omega
+  · right
+    unfold parenGens
+    simp only [hl, if_false, List.all_map, List.all_eq_true]
+    intro a _
+    simp only [Function.comp]
+    split <;> simp_all
+
+/-- arguments that are not bare generators are handed through untouched -/
+theorem parenGens_others (args : List Arg) (a : Arg) (ha : a ∈ args) (hg : a.gen = false) : a ∈ parenGens args := by
+  unfold parenGens
+  split
+  · exact ha
+  · exact List.mem_map.mpr ⟨a, ha, by simp [hg]⟩
+
+/-- **C01 (`add_arg_to_call`, as it is now).** adding a keyword argument to a well-formed call gives a
+well-formed call, also when the call's only argument was a bare generator. -/
+theorem C01_addArgToCall_wf (args : List Arg) (k v : String) (h : wf args = true) : wfGen (addArgToCall args k v) = true :=
+  parenGens_wfGen _ (C01_addArg_wf args k v h)
+
+/-- **C01 (`update_arg_target ∘ replace_args`, as the codemods use it).** -/
+theorem C01_updateArgTarget_wf (args : List Arg) (info : List NewArg)
+    (hstar : ∀ a ∈ args, a.kw ≠ none → a.star = .none) (h : wf args = true) :
+    wfGen (updateArgTarget (replaceArgs args info)) = true :=
+  parenGens_wfGen _ (C01_replaceArgs_wf args info hstar h)
+
+/-- **the code before the fix.** `requests.get(u for u in urls)` + `timeout=60` -/
+theorem C01_addArg_old_bare_generator :
+    let args : List Arg := [{ kw := none, star := .none, val := "u for u in urls", gen := true }]
+    wfGen args = true ∧ wfGen (addArg args "timeout" "60") = false ∧ wfGen (addArgToCall args "timeout" "60") = true ∧
+    (addArgToCall args "timeout" "60").map (·.val) = ["(u for u in urls)", "60"] := by
+  decide
+
 /-! ### C07: the editor is a fixed point on its own output -/
 
 /-- after the edit every specified name that is to be present *is* present with the specified value at
@@ -175,10 +228,10 @@ theorem C07_replaceArgs_idem_single (args : List Arg) (n : NewArg) (hadd : n.add
       exact congrArg (a :: ·) ih
 
 -- non-vacuity: `requests.get(url, verify=False, **kw)` with spec verify=True
-example : replaceArgs [⟨none, .none, "url"⟩, ⟨some "verify", .none, "False"⟩, ⟨none, .two, "kw"⟩] [⟨"verify", "True", true⟩]
-    = [⟨none, .none, "url"⟩, ⟨some "verify", .none, "True"⟩, ⟨none, .two, "kw"⟩] := by decide
-example : replaceArgs [⟨none, .none, "url"⟩, ⟨none, .two, "kw"⟩] [⟨"timeout", "60", true⟩]
-    = [⟨none, .none, "url"⟩, ⟨none, .two, "kw"⟩, ⟨some "timeout", .none, "60"⟩] := by decide
-example : wf [⟨none, .none, "url"⟩, ⟨none, .two, "kw"⟩, ⟨some "timeout", .none, "60"⟩] = true := by decide
+example : replaceArgs [⟨none, .none, "url", false⟩, ⟨some "verify", .none, "False", false⟩, ⟨none, .two, "kw", false⟩] [⟨"verify", "True", true⟩]
+    = [⟨none, .none, "url", false⟩, ⟨some "verify", .none, "True", false⟩, ⟨none, .two, "kw", false⟩] := by decide
+example : replaceArgs [⟨none, .none, "url", false⟩, ⟨none, .two, "kw", false⟩] [⟨"timeout", "60", true⟩]
+    = [⟨none, .none, "url", false⟩, ⟨none, .two, "kw", false⟩, ⟨some "timeout", .none, "60", false⟩] := by decide
+example : wf [⟨none, .none, "url", false⟩, ⟨none, .two, "kw", false⟩, ⟨some "timeout", .none, "60", false⟩] = true := by decide
 
 end CM.Args
